@@ -1924,7 +1924,8 @@ impl FileAndTime {
 
     pub fn is_up_to_date(&self) -> bool {
         let file_mod_time = FileAndTime::get_metadata(&self.file);
-        return self.time >= file_mod_time;
+        // a file put back from a backup (cp -p, an installer) has an *older* time than the one that was read: any change counts
+        return self.time == file_mod_time || file_mod_time == SystemTime::UNIX_EPOCH;
     }
 
     fn get_metadata(path: &Path) -> SystemTime {
